@@ -31,7 +31,7 @@
   The proofs are in `Proofs/Rewrite.lean`.
 -/
 import Ctrmml.Proofs.Rewrite
-import Ctrmml.Proofs.OptQSort
+import Ctrmml.Proofs.OptSubPass
 namespace Ctrmml.C01
 open Ctrmml Ctrmml.Tree Ctrmml.Expand Ctrmml.Rewrite Tables
 
@@ -937,5 +937,155 @@ theorem applyMatch_sub_is_step {song : Song} {m : SAMap} {bm : Match} {subId : I
     (fun id t ht => (hwf.track ht).2.1) hlen h
     (fun x hx => hnoj x (List.mem_of_mem_drop (List.mem_of_mem_take hx)))
   exact ⟨stepN_of_subInv hinv hfresh (noEnd_take (noEnd_drop w1 _) _) hbal, hid, hinv⟩
+
+/-! ## every pass of `Opt.optimize` is a step; the whole run -/
+
+theorem validAll_of_ok {song : Song} (hnd : (song.tracks.map (·.1)).Nodup)
+    (hok : ∀ id, song.track? id ≠ none → okTrack song id) : validAll song = true := by
+  unfold validAll
+  rw [List.all_eq_true]
+  intro p hp
+  have hlk : song.track? p.1 = some p.2 := lookup_of_mem_nodup hnd (by simpa using hp)
+  obtain ⟨t, items, ht, hpf⟩ := hok p.1 (by rw [hlk]; simp)
+  rw [hlk] at ht
+  cases ht
+  simp [hpf]
+
+/-- a fresh subroutine id is not called anywhere in a song all of whose tracks validate -/
+theorem noJump_of_valid {song : Song} {subId : Int} (hwf : SongWF song) (hval : validAll song = true)
+    (hfresh : song.track? (trackIdOfParam subId) = none) {id : Nat} {t : List Event}
+    (ht : song.track? id = some t) : ∀ e ∈ t, e ≠ jumpEvent subId := by
+  intro e he hej
+  obtain ⟨items, hp⟩ := validAll_ok hval ht
+  have := jump_target_exists (hwf.track ht).1 hp he (by rw [hej]; exact jumpEvent_kind subId)
+  rw [hej] at this
+  exact this hfresh
+
+/-- **One pass of `find_best_match` (`find_match` over every position, then `apply_match`) is a
+step**: nothing (score 0), a loop fold, or a subroutine extraction — up to `LOOP_BREAK` params — and
+it keeps the song well formed and the next subroutine id fresh. -/
+theorem pass_is_step {song : Song} {m : SAMap} {subId : Int} {s' : Song} {best : Match} {subId' : Int}
+    (hwf : SongWF song) (hfr : FreshInv song subId) (hval : validAll song = true) (hnext : subId + 1 < 32768)
+    (hfb : findBestMatch song m subId = .ok (s', best, subId')) :
+    (s' = song ∨ StepN song s') ∧ SongWF s' ∧ FreshInv s' subId' ∧ subId' ≤ subId + 1 := by
+  by_cases hl : best.loopScore < best.subScore
+  · rcases findBestMatch_spec hfb with ⟨_, h1, h2⟩ | ⟨hbs, ⟨srcT, srcPos, hfm⟩, m', happ⟩
+    · exact ⟨Or.inl h1, h1 ▸ hwf, by rw [h1, h2]; exact hfr, by omega⟩
+    · obtain ⟨ht, hp, hss, _⟩ := findMatch_spec hwf.nodup hfm
+      obtain ⟨src, hsrc⟩ := findMatch_track hfm
+      have hpos : 0 < best.subScore := by
+        unfold Match.bestScore at hbs
+        rw [if_pos hl] at hbs
+        omega
+      have hso := findMatch_subOK hsrc hfm hpos
+      obtain ⟨hlen, hbal⟩ := subOK_balanced hsrc hso
+      have hsrc' : song.track? best.trackId = some src := by rw [ht]; exact hsrc
+      rw [← hp] at hlen hbal
+      have hfresh := hfr.track_none
+      obtain ⟨hstep, hid, hinv⟩ := applyMatch_sub_is_step hwf hl hsrc' hfresh
+        (noJump_of_valid hwf hval hfresh hsrc') hlen hbal happ
+      obtain ⟨g1, g2⟩ := subPass_wf qsortPerm_of_core hwf hfr hnext hl hsrc' hlen hso.1 happ hinv
+      have hw : wrap16 (subId + 1) = subId + 1 := wrap16_small (by have := hfr.lo; omega) hnext
+      rw [hw] at hid
+      exact ⟨Or.inr hstep, g1, by rw [hid]; exact g2, by omega⟩
+  · obtain ⟨h1, h2, h3⟩ := pass_loop_is_step hwf hfb hl
+    refine ⟨h1, h2, ?_, by omega⟩
+    rw [h3]
+    rcases findBestMatch_spec hfb with ⟨_, g1, _⟩ | ⟨_, ⟨srcT, srcPos, hfm⟩, m', happ⟩
+    · rw [g1]; exact hfr
+    · -- the loop branch rewrites an existing track
+      obtain ⟨_, _, hss, hlo⟩ := findMatch_spec hwf.nodup hfm
+      have hne : best.loopLength ≠ 0 := by
+        unfold Match.loopScore at hl
+        omega
+      have hok := hlo hne
+      obtain ⟨len0, hf⟩ := hok.fml
+      obtain ⟨src, _, hsrc, _, _⟩ := findMatchLength_spec hf
+      rw [applyMatch_loop_eq hsrc hl] at happ
+      simp only [Except.ok.injEq, Prod.mk.injEq] at happ
+      rw [← happ.1]
+      exact hfr.setTrack hsrc _
+
+/-- a run of `Opt.optimize` (with the validator "every track validates") is a chain of steps
+through songs that validate -/
+theorem optimize_chain (minScore : Int) :
+    ∀ (fuel : Nat) (song : Song) (subId : Int) (acc : List Match) (r : OptResult),
+    SongWF song → FreshInv song subId → validAll song = true →
+    optimize validAll minScore fuel song subId acc = .ok r → r.validated = true →
+    subId + ((r.passes.length - acc.length : Nat) : Int) < 32768 →
+    ∃ l, chainN song l ∧ lastSong song l = r.song ∧ (∀ T ∈ l, validAll T = true) ∧ SongWF r.song := by
+  intro fuel
+  induction fuel with
+  | zero => intro song subId acc r _ _ _ h; simp [optimize] at h
+  | succ fuel ih =>
+    intro song subId acc r hwf hfr hval h hv hcnt
+    obtain ⟨ps, hps⟩ := optimize_passes_prefix validAll minScore _ _ _ _ _ h
+    unfold optimize at h
+    obtain ⟨m, _, h⟩ := bind_ok h
+    obtain ⟨x, hfb, h⟩ := bind_ok h
+    obtain ⟨s', best, subId'⟩ := x
+    simp only at h
+    split at h
+    · simp only [pure, Except.pure, Except.ok.injEq] at h
+      rw [← h] at hv; simp at hv
+    · rename_i hvs
+      have hval' : validAll s' = true := by simpa using hvs
+      -- at least this pass remains
+      have hps1 : 1 ≤ ps.length := by
+        split at h
+        · obtain ⟨ps', hps'⟩ := optimize_passes_prefix validAll minScore _ _ _ _ _ h
+          have : acc ++ ps = acc ++ [best] ++ ps' := by rw [← hps, hps']
+          have := congrArg List.length this
+          simp only [List.length_append, List.length_cons, List.length_nil] at this
+          omega
+        · simp only [pure, Except.pure, Except.ok.injEq] at h
+          have : acc ++ ps = acc ++ [best] := by rw [← hps, ← h]
+          have := congrArg List.length this
+          simp only [List.length_append, List.length_cons, List.length_nil] at this
+          omega
+      have hlen : r.passes.length - acc.length = ps.length := by rw [hps]; simp
+      rw [hlen] at hcnt
+      obtain ⟨hstep, hwf', hfr', hid⟩ := pass_is_step hwf hfr hval (by omega) hfb
+      split at h
+      · obtain ⟨l, hc, hlast, hall, hwfr⟩ := ih s' subId' (acc ++ [best]) r hwf' hfr' hval' h hv (by
+          have : r.passes.length - (acc ++ [best]).length = ps.length - 1 := by
+            rw [hps]; simp; omega
+          rw [this]
+          omega)
+        rcases hstep with rfl | hstep
+        · exact ⟨l, hc, hlast, hall, hwfr⟩
+        · refine ⟨s' :: l, ⟨hstep, hc⟩, hlast, ?_, hwfr⟩
+          intro T hT
+          rcases List.mem_cons.1 hT with rfl | hT
+          · exact hval'
+          · exact hall T hT
+      · simp only [pure, Except.pure, Except.ok.injEq] at h
+        subst h
+        rcases hstep with rfl | hstep
+        · exact ⟨[], trivial, rfl, by simp, hwf'⟩
+        · exact ⟨[s'], ⟨hstep, trivial⟩, rfl, by simpa using hval', hwf'⟩
+
+/-- **C01, preservation, for the executable model of the whole optimiser.**  For every well-formed
+song (track list in id order without duplicates and ids below 32767, no explicit `END` event,
+`LOOP_BREAK`s without duration, tracks shorter than 32767 events) all of whose tracks validate,
+every threshold `minScore` and every fuel: if `Opt.optimize` — stack analysis, `find_best_match`,
+`apply_match` (loop folds and subroutine extractions), the validator "every track validates"
+after every pass — returns normally with `validated = true`, and the subroutine ids it hands out
+stay within `int16_t` (`hcnt`: at most one id per pass; defect D3's neighbourhood), then every
+original track still validates in the optimised song and is observed the same: what is played
+with durations, total length, loop-point time. -/
+theorem C01_optimize_preserves (song : Song) (minScore : Int) (fuel : Nat) (r : OptResult)
+    (hwf : SongWF song) (hsorted : (song.tracks.map (·.1)).Pairwise (· < ·))
+    (hids : ∀ p ∈ song.tracks, p.1 < 32767)
+    (hok : ∀ id, song.track? id ≠ none → okTrack song id)
+    (hr : optimize validAll minScore fuel song (initialSubId song) [] = .ok r) (hv : r.validated = true)
+    (hcnt : initialSubId song + (r.passes.length : Int) < 32768)
+    (id : Nat) (hid : song.track? id ≠ none) :
+    okTrack r.song id ∧ obsOf r.song id = obsOf song id := by
+  obtain ⟨l, hc, hlast, hall, _⟩ := optimize_chain minScore fuel song _ [] r hwf
+    (initialSubId_fresh hsorted hids) (validAll_of_ok hwf.nodup hok) hr hv (by simpa using hcnt)
+  rw [← hlast]
+  exact C01_passesN_preserve_nodepth song l hc id (hok id hid)
+    (fun T hT t' ht' => validAll_validOK T (hall T hT) id t' ht')
 
 end Ctrmml.C01
